@@ -293,10 +293,12 @@ def liveMpd (a : Asset) (sets : List ASDef) (cfg : MpdCfg) (nowMS : Nat) : MpdRe
       | .panic => .panic
       | .err => .err
       | .ok ps =>
-        -- $Number$ MPDs: publishTime = start of the last period
+        -- $Number$ MPDs: publishTime = start of the last period; (`fix:` commit) timeline MPDs: not before it, since a
+        -- period is listed from its start on, before any of its segments is available
+        let lastStartMS := cfg.startS * 1000 + (ps.getLast?.map (·.startS)).getD 0 * 1000
         let pt' := match cfg.mpdType with
-          | .number => cfg.startS * 1000 + (ps.getLast?.map (·.startS)).getD 0 * 1000
-          | _ => pt
+          | .number => lastStartMS
+          | _ => max pt lastStartMS
         fin ps pt'
 
 end Core
